@@ -25,7 +25,7 @@ def FLOORS(tier):
     f = {"temperature-range-calls": 600 if q else 20000, "temperature:no-variables": 40, "temperature:zero-prob": 80,
          "temperature:equal-probs": 40, "constant-model": 60, "raw-repeated-labels": 40, "real-coefficients": 150,
          "temperature:stale-model": 20, "second-look-checks": 500 if q else 20000, "second-look:cancel-all": 40, "second-look:clear": 40, "exact-arithmetic": 100,
-         "dict-with-zero-coefficients": 60, "temperature:dict-with-zero-coefficients": 20, "raw-diagonal-keys": 100,
+         "dict-with-zero-coefficients": 60, "temperature:dict-with-zero-coefficients": 20, "raw-diagonal-keys": 100, "tiny-scale": 150, "temperature:alias-spellings-cancel": 10,
          "temperature:single-scale-model": 80}
     for fn in FN:
         f["fn:" + fn] = 300 if q else 15000
@@ -112,6 +112,10 @@ def case(ctx, rng, idx):
             ctx.cat("raw-diagonal-keys")
         if raw and any(len(set(k)) < len(k) for k in terms):
             ctx.cat("raw-repeated-labels")
+    if not real and rng.random() < 0.1:
+        # the same model in very small units: a coefficient of 1e-21 is a coefficient, not rounding noise
+        terms = {k: v * 2.0 ** -70 for k, v in terms.items()}
+        ctx.cat("tiny-scale")
     m = dict(terms) if tn == "dict" else gen.model_of(getattr(L, tn), terms)
     if tn == "dict" and rng.random() < 0.15:
         for x in labs[:2]:
@@ -180,7 +184,17 @@ def temperature(ctx, rng):
                     break
             ctx.cat("temperature:single-scale-model")
     m = dict(terms) if tn == "dict" else gen.model_of(getattr(L, tn), terms)
-    if tn == "dict" and rng.random() < 0.2:
+    if tn == "dict" and len(labs) >= 2 and rng.random() < 0.12:
+        # a plain dict in which every variable-carrying term appears under two spellings that cancel exactly
+        a_, b_ = labs[0], labs[1]
+        c_ = rng.choice([3, 0.5, -2])
+        m = {(a_, b_): c_, (b_, a_): -c_}
+        if kind == "bool":
+            m.update({(a_, a_): 2, (a_,): -2})
+        if rng.random() < 0.5:
+            m[()] = 1.5
+        ctx.cat("temperature:alias-spellings-cancel")
+    elif tn == "dict" and rng.random() < 0.2:
         if rng.random() < 0.5:
             m = {k: (0 if k else v) for k, v in m.items()}        # every non-constant coefficient is an explicit zero
         else:
